@@ -10,6 +10,7 @@ from __future__ import annotations
 
 import ast
 
+from pv.q import text as qtext
 from pv.model import AnalysisError, walk_no_nested, params, UNKNOWN
 from pv.mustcall import MustCall
 
@@ -85,7 +86,7 @@ def rule_a(model, rep):
     rep.minimum(R, 9)
     # check_password only overwrites an existing key
     fn = model.func(AP, "HtpasswdFile.check_password")
-    txt = ast.unparse(fn)
+    txt = qtext(fn)
     ok = "hash = self._records.get(user)" in txt and "if hash is None:\n        return None" in txt and "self._records[user] = new_hash" in txt
     rep.check(ok, R, site("HtpasswdFile.check_password"), "get -> None for unknown; overwrite existing", "the upgraded hash replaces the entry of a user known to exist")
 
@@ -105,7 +106,7 @@ def rule_b(model, rep):
     purges = True
     for q in ("HtpasswdFile.delete", "HtdigestFile.delete", "HtdigestFile.delete_realm"):
         f2 = model.func(AP, q)
-        if not any(kind in ("remove", "pop", "rebind", "clear") for kind, _ in _mutations(f2, "_source")) and "_source" not in ast.unparse(f2):
+        if not any(kind in ("remove", "pop", "rebind", "clear") for kind, _ in _mutations(f2, "_source")) and "_source" not in qtext(f2):
             purges = False
     rep.check(consults_source or purges, R, site("_CommonFile._set_record"), f"if {gt}: self._source.append((_RECORD, key))",
               "a deleted record keeps its slot in _source, so the append must be guarded by a test on _source itself (or deletions must purge _source)",
@@ -118,7 +119,7 @@ def rule_b(model, rep):
               and body[-1] == "return existing", R, site("_CommonFile._set_record"), " | ".join(body), "existing is computed before the store and returned")
     # _iter_lines: skips deleted keys, renders from _records
     fn = model.func(AP, "_CommonFile._iter_lines")
-    txt = ast.unparse(fn)
+    txt = qtext(fn)
     rep.check("if content not in records:\n                continue" in txt, R, site("_CommonFile._iter_lines"), "if content not in records: continue", "slots of deleted records are skipped")
     rep.check("yield self._render_record(content, records[content])" in txt, R, site("_CommonFile._iter_lines"), "yield self._render_record(content, records[content])",
               "records are rendered with their current hash")
@@ -176,12 +177,12 @@ def rule_c(model, rep):
         # htdigest.hash/verify get the *unencoded* or consistently encoded pair in the same roles
     rep.minimum(R, 8)
     fn = model.func(AP, "_CommonFile._encode_field")
-    txt = ast.unparse(fn)
+    txt = qtext(fn)
     bad_chars = model.fold(unit, ast.Name(id="_INVALID_FIELD_CHARS", ctx=ast.Load()))
     rep.check(isinstance(bad_chars, bytes) and set(bad_chars) >= set(b":\n\r\t\x00"), R, site("_INVALID_FIELD_CHARS"), repr(bad_chars),
               "separator and control characters ':', NL, CR, TAB, NUL are forbidden in user/realm",
               witness="set_password('a:b', ...) writes a line that parses back as user 'a'")
-    rep.check("if len(value) > 255:" in txt and "raise ValueError" in txt, R, site("_CommonFile._encode_field"), "len(value) > 255 -> ValueError", "names longer than 255 bytes are refused")
+    rep.check(txt.loose("if len(value) > 255:") and txt.loose("raise ValueError"), R, site("_CommonFile._encode_field"), "len(value) > 255 -> ValueError", "names longer than 255 bytes are refused")
     rep.check("any((c in _INVALID_FIELD_CHARS for c in value))" in txt, R, site("_CommonFile._encode_field"), "any(c in _INVALID_FIELD_CHARS for c in value)", "every byte is checked")
     i_enc = txt.find("value = value.encode(self.encoding)")
     i_len = txt.find("if len(value) > 255:")
@@ -248,16 +249,16 @@ def rule_d(model, rep):
     body = [ast.unparse(s) for s in fn.body if not (isinstance(s, ast.Expr) and isinstance(s.value, ast.Constant))]
     rep.check(body == ["if self.autosave and self._path:\n    self.save()"], R, site("_CommonFile._autosave"), " | ".join(body), "autosave saves when enabled and bound to a path")
     fn = model.func(AP, "_CommonFile.save")
-    txt = ast.unparse(fn)
+    txt = qtext(fn)
     rep.check("fh.writelines(self._iter_lines())" in txt and "self._mtime = os.path.getmtime(self._path)" in txt, R, site("_CommonFile.save"),
               "writelines(_iter_lines()); refresh _mtime", "save writes the rendered lines and refreshes the remembered mtime",
               witness="load_if_changed() after save() reloads needlessly or misses external changes")
     fn = model.func(AP, "_CommonFile.load")
-    txt = ast.unparse(fn)
+    txt = qtext(fn)
     rep.check("self._mtime = os.path.getmtime(self._path)" in txt and "self._mtime = 0" in txt, R, site("_CommonFile.load"), "_mtime set on load (0 for foreign paths)",
               "load remembers the mtime of its own file and 0 for foreign sources")
     fn = model.func(AP, "_CommonFile.load_if_changed")
-    txt = ast.unparse(fn)
+    txt = qtext(fn)
     rep.check("if self._mtime and self._mtime == os.path.getmtime(self._path):\n        return False" in txt, R, site("_CommonFile.load_if_changed"),
               "unchanged mtime -> False", "reload is skipped only when the remembered mtime equals the file's")
     # set_password delegates to set_hash (so it autosaves)
@@ -271,8 +272,8 @@ def rule_e(model, rep):
     R = "C16.e-parse-render"
     for cls, nf, tmpl, ret in (("HtpasswdFile", 2, "'%s:%s\\n'", "result"), ("HtdigestFile", 3, "'%s:%s:%s\\n'", "((user, realm), hash)")):
         fn = model.func(AP, cls + "._parse_record")
-        txt = ast.unparse(fn)
-        rep.check("result = record.rstrip().split(_BCOLON)" in txt and f"if len(result) != {nf}:" in txt and "raise ValueError" in txt, R, site(cls + "._parse_record"),
+        txt = qtext(fn)
+        rep.check(txt.loose("result = record.rstrip().split(_BCOLON)") and txt.loose(f"if len(result) != {nf}:") and txt.loose("raise ValueError"), R, site(cls + "._parse_record"),
                   f"split on ':' into {nf} fields", f"a record line has exactly {nf} colon-separated fields, else ValueError",
                   witness="malformed lines are silently accepted / valid lines refused")
         rets = [ast.unparse(n.value) for n in ast.walk(fn) if isinstance(n, ast.Return)]
@@ -287,12 +288,12 @@ def rule_e(model, rep):
             rep.check(args == want, R, site(cls + "._render_record"), ", ".join(args), f"fields rendered in the order they are parsed: {want}",
                       witness="saved file has user and realm (or hash) swapped")
     fn = model.func(AP, "HtdigestFile._render_record")
-    rep.check("user, realm = key" in ast.unparse(fn), R, site("HtdigestFile._render_record"), "user, realm = key", "key unpacked as (user, realm)")
+    rep.check("user, realm = key" in qtext(fn), R, site("HtdigestFile._render_record"), "user, realm = key", "key unpacked as (user, realm)")
     sep = model.fold(model.unit(AP), ast.Name(id="_BCOLON", ctx=ast.Load()))
     rep.check(sep == b":", R, site("_BCOLON"), repr(sep), "field separator is ':'")
     # htdigest hash/verify roles
     fn = model.func(AP, "HtdigestFile.set_password")
-    rep.check("hash = htdigest.hash(password, user, realm, encoding=self.encoding)" in ast.unparse(fn), R, site("HtdigestFile.set_password"),
+    rep.check("hash = htdigest.hash(password, user, realm, encoding=self.encoding)" in qtext(fn), R, site("HtdigestFile.set_password"),
               "htdigest.hash(password, user, realm, encoding=self.encoding)", "digest made from (password, user, realm) with the file's encoding")
     fn = model.func(AP, "HtdigestFile.check_password")
     rets = [ast.unparse(n.value) for n in ast.walk(fn) if isinstance(n, ast.Return)]
@@ -301,11 +302,11 @@ def rule_e(model, rep):
               witness="check_password() is False for the password just set (roles swapped)")
     rep.check("None" in rets, R, site("HtdigestFile.check_password"), "return None for unknown", "unknown user -> None")
     fn = model.func(AP, "HtpasswdFile.check_password")
-    txt = ast.unparse(fn)
+    txt = qtext(fn)
     rep.check("ok, new_hash = self.context.verify_and_update(password, hash)" in txt and "if ok and new_hash is not None:" in txt and txt.rstrip().endswith("return ok"), R,
               site("HtpasswdFile.check_password"), "verify_and_update; store new hash when ok", "deprecated hashes are upgraded on successful check")
     fn = model.func(AP, "HtpasswdFile.set_password")
-    rep.check("hash = self.context.hash(password)" in ast.unparse(fn), R, site("HtpasswdFile.set_password"), "self.context.hash(password)", "password hashed by the file's context")
+    rep.check("hash = self.context.hash(password)" in qtext(fn), R, site("HtpasswdFile.set_password"), "self.context.hash(password)", "password hashed by the file's context")
 
 
 def rule_f(model, rep):
@@ -321,18 +322,18 @@ def rule_f(model, rep):
     rep.check("if not tmp or tmp.startswith(_BHASH):\n    skipped += line\n    continue" in txt, R, site("_CommonFile._load_lines"), "blank/comment -> skipped += line", "comments and blank lines are kept verbatim")
     # 2 duplicates are kept as skipped text and never overwrite
     dup = next((s for s in loop.body if isinstance(s, ast.If) and ast.unparse(s.test) == "key in records"), None)
-    ok = dup is not None and "skipped += line" in ast.unparse(dup) and isinstance(dup.body[-1], ast.Continue)
+    ok = dup is not None and "skipped += line" in qtext(dup) and isinstance(dup.body[-1], ast.Continue)
     rep.check(ok, R, site("_CommonFile._load_lines"), ast.unparse(dup)[:100] if dup else "<none>", "a later duplicate of a user is kept as skipped text and does not replace the first entry",
               witness="a file listing a user twice loads the second hash (Apache uses the first)")
     # 3 pending skipped text is flushed before the record
-    idx_flush = next((i for i, s in enumerate(loop.body) if isinstance(s, ast.If) and ast.unparse(s.test) == "skipped" and "source.append((_SKIPPED, skipped))" in ast.unparse(s)), None)
+    idx_flush = next((i for i, s in enumerate(loop.body) if isinstance(s, ast.If) and ast.unparse(s.test) == "skipped" and "source.append((_SKIPPED, skipped))" in qtext(s)), None)
     idx_rec = next((i for i, s in enumerate(loop.body) if ast.unparse(s) == "source.append((_RECORD, key))"), None)
     idx_store = next((i for i, s in enumerate(loop.body) if ast.unparse(s) == "records[key] = value"), None)
     rep.check(None not in (idx_flush, idx_rec, idx_store) and idx_flush < idx_rec, R, site("_CommonFile._load_lines"), f"flush@{idx_flush} record@{idx_rec}",
               "skipped text preceding a record is appended to the source list before that record",
               witness="comments move below the record they preceded when the file is saved")
     if idx_flush is not None:
-        rep.check("skipped = b''" in ast.unparse(loop.body[idx_flush]), R, site("_CommonFile._load_lines"), "skipped = b''", "flushed text is reset")
+        rep.check("skipped = b''" in qtext(loop.body[idx_flush]), R, site("_CommonFile._load_lines"), "skipped = b''", "flushed text is reset")
     # 4 trailing skipped text appended last; state published at the end
     after = [ast.unparse(s) for s in fn.body[fn.body.index(loop) + 1:]]
     rep.check(any(a.startswith("if skipped.rstrip():\n    source.append((_SKIPPED, skipped))") for a in after), R, site("_CommonFile._load_lines"), "trailing skipped", "trailing comments are kept")
@@ -351,37 +352,37 @@ def rule_gh(model, rep):
         rep.check(first is not None and ast.unparse(first) == want, R, site(q), ast.unparse(first)[:90] if first else "<none>",
                   f"two-argument call form: `{last}` taken from the realm position, realm defaulted",
                   witness=f"{q.split('.')[-1]}(user, value) treats the value as a realm")
-        txt = ast.unparse(fn)
+        txt = qtext(fn)
         rep.check("self._require_realm(realm)" in txt or "self._encode_realm(realm)" in txt or "self._encode_key(user, realm)" in txt, R, site(q),
                   "realm resolved through _require_realm/_encode_realm", "the default realm is applied")
         a = fn.args
         dflt = {ar.arg: ast.unparse(d) for ar, d in zip(a.args[-len(a.defaults):], a.defaults)}
         rep.check(dflt.get(last) == "_UNSET" and dflt.get("realm") == "None", R, site(q), str(dflt), "signature (user, realm=None, <value>=_UNSET)")
     fn = model.func(AP, "HtdigestFile._require_realm")
-    txt = ast.unparse(fn)
-    rep.check("realm = self.default_realm" in txt and "raise TypeError" in txt, R, site("HtdigestFile._require_realm"), "default_realm or TypeError", "missing realm falls back to default_realm, else TypeError")
+    txt = qtext(fn)
+    rep.check(txt.loose("realm = self.default_realm") and txt.loose("raise TypeError"), R, site("HtdigestFile._require_realm"), "default_realm or TypeError", "missing realm falls back to default_realm, else TypeError")
     R2 = "C16.h-realm-filters"
     fn = model.func(AP, "HtdigestFile.users")
     rets = [ast.unparse(n.value) for n in ast.walk(fn) if isinstance(n, ast.Return)]
     rep.check(rets == ["[self._decode_field(key[0]) for key in self._records if key[1] == realm]"], R2, site("HtdigestFile.users"), "; ".join(rets),
               "users(realm) lists key[0] of records whose key[1] is the encoded realm", witness="users() of one realm lists users of other realms")
-    rep.check("realm = self._encode_realm(realm)" in ast.unparse(fn), R2, site("HtdigestFile.users"), "realm encoded", "the filter compares encoded values")
+    rep.check("realm = self._encode_realm(realm)" in qtext(fn), R2, site("HtdigestFile.users"), "realm encoded", "the filter compares encoded values")
     fn = model.func(AP, "HtdigestFile.delete_realm")
-    txt = ast.unparse(fn)
+    txt = qtext(fn)
     rep.check("keys = [key for key in records if key[1] == realm]" in txt and "for key in keys:\n        del records[key]" in txt and "return len(keys)" in txt, R2,
               site("HtdigestFile.delete_realm"), "collect keys with key[1]==realm, delete, count", "delete_realm removes exactly the records of that realm",
               witness="delete_realm removes users whose *name* equals the realm, or users of other realms")
     fn = model.func(AP, "HtdigestFile.realms")
-    rep.check("set((key[1] for key in self._records))" in ast.unparse(fn), R2, site("HtdigestFile.realms"), "set(key[1] ...)", "realms() collects key[1]")
+    rep.check("set((key[1] for key in self._records))" in qtext(fn), R2, site("HtdigestFile.realms"), "set(key[1] ...)", "realms() collects key[1]")
     fn = model.func(AP, "HtpasswdFile.users")
     rets = [ast.unparse(n.value) for n in ast.walk(fn) if isinstance(n, ast.Return)]
     rep.check(rets == ["[self._decode_field(user) for user in self._records]"], R2, site("HtpasswdFile.users"), "; ".join(rets), "users() lists every key")
     for q in ("HtpasswdFile.delete", "HtdigestFile.delete"):
         fn = model.func(AP, q)
-        txt = ast.unparse(fn)
+        txt = qtext(fn)
         rep.check("except KeyError:\n        return False" in txt and txt.rstrip().endswith("return True"), R2, site(q), "KeyError -> False; else True", "delete reports whether the user existed")
     fn = model.func(AP, "HtpasswdFile.get_hash")
-    rep.check("return self._records[self._encode_user(user)]" in ast.unparse(fn) and "except KeyError:\n        return None" in ast.unparse(fn), R2,
+    rep.check("return self._records[self._encode_user(user)]" in qtext(fn) and "except KeyError:\n        return None" in qtext(fn), R2,
               site("HtpasswdFile.get_hash"), "lookup by encoded user; None when missing", "get_hash validates the name and answers None for unknown users")
 
 
